@@ -426,10 +426,20 @@ def values_equal(a, b, rtol=1e-9, atol=0.0):
             return bool(np.allclose(a, b, rtol=rtol, atol=atol, equal_nan=True))
         if isinstance(a, (tuple, list)) and isinstance(b, (tuple, list)):
             return len(a) == len(b) and all(values_equal(x, y, rtol, atol) for x, y in zip(a, b))
+        if isinstance(a, int) and isinstance(b, int):
+            return a == b           # (exact; Python ints may exceed the float range)
         a = complex(a)
         b = complex(b)
     except (TypeError, ValueError):
         return a == b
+    except OverflowError:
+        # a huge exact integer against a float: equal only if the float is the matching infinity
+        try:
+            fa = float(a) if not isinstance(a, int) else (math.inf if a > 0 else -math.inf)
+            fb = float(b) if not isinstance(b, int) else (math.inf if b > 0 else -math.inf)
+            return fa == fb
+        except Exception:
+            return False
 
     def close(x, y):
         if math.isnan(x) or math.isnan(y):
